@@ -227,6 +227,21 @@ func init() {
 					}
 				}
 			}
+			// one-letter names at the top of the tree, the root directory itself as an entry (a file system image)
+			for _, f := range Formats {
+				for _, l := range [][]model.Entry{
+					{{Dst: "/a", Type: "dir"}},
+					{{Src: "etc/app.conf", Dst: "/a/f"}},
+					{{Src: "tree", Dst: "/x", Type: "tree"}},
+					{{Src: "etc/app.conf", Dst: "/a/b/c/d"}, {Src: "/t", Dst: "/l", Type: "symlink"}},
+					{{Src: "rootfs", Dst: "/", Type: "tree"}},
+					{{Dst: "/", Type: "dir"}, {Src: "bin/app", Dst: "/usr/bin/app"}},
+				} {
+					if !yield(C04Case{Class: "short-names", Format: f, Setting: Setting{Name: "default"}, List: l}) {
+						return
+					}
+				}
+			}
 			// the rarely used ipk settings next to a payload that holds the alternatives' targets
 			for _, f := range Formats {
 				for _, l := range [][]model.Entry{{{Src: "bin/app", Dst: "/usr/bin/app"}}, {{Src: "bin/app", Dst: "/usr/bin/app"}, {Src: "etc/app.conf", Dst: "/etc/app.conf", Type: "config"}, {Dst: "/bin", Type: "dir"}}, nil} {
